@@ -74,6 +74,8 @@ func fileWriteAgrees(format string, s *astisub.Subtitles) string {
 	before := canon(s)
 	for _, ext := range exts {
 		p := filepath.Join(dir, "out."+ext)
+		// the path already holds an older, longer document
+		_ = os.WriteFile(p, append(append([]byte(nil), ref.Bytes()...), bytes.Repeat([]byte("9\n99:00:00,000 --> 99:00:01,000\nstale\n\n"), 20)...), 0o644)
 		if err := s.Write(p); err != nil {
 			return fmt.Sprintf("Write(out.%s) failed although the %s writer accepts the list: %v", ext, format, err)
 		}
@@ -86,6 +88,64 @@ func fileWriteAgrees(format string, s *astisub.Subtitles) string {
 		}
 	}
 	return ""
+}
+
+// priorFailedWrite makes the process go through a write of another list that fails half way (the destination breaks):
+// what a later, unrelated write produces may not depend on it.
+func priorFailedWrite(format string, failAt, mode int) {
+	o := buildList([]cueSpec{{S: 0, E: nsMs * 1000, T: "leftover|of a failed write"}, {S: 2000 * nsMs, E: 3000 * nsMs, T: "second leftover"}})
+	o.sub.Metadata = &astisub.Metadata{Framerate: 25, STLDisplayStandardCode: "0", Title: "leftover"}
+	func() {
+		defer func() { _ = recover() }()
+		_ = writeFormat(format, o.sub, &faultWriter{k: failAt, mode: mode})
+	}()
+}
+
+// addForeignAttributes sets, on every attribute set of the list, attributes that belong to other formats than the
+// destination (as a reader of another format, or its propagation step, leaves them): the destination's own
+// attributes decide what is written.
+func addForeignAttributes(format string, s *astisub.Subtitles) {
+	col := "lime"
+	t, two := true, 2
+	f := 1.5
+	each := func(sa *astisub.StyleAttributes) {
+		if sa == nil {
+			return
+		}
+		if format != "srt" {
+			sa.SRTBold, sa.SRTItalics, sa.SRTUnderline = true, true, true
+		}
+		if format != "srt" && format != "ttml" && format != "vtt" {
+			sa.SRTColor = &col
+		}
+		if format != "ssa" {
+			sa.SSAFontName, sa.SSAFontSize, sa.SSABold, sa.SSAAlignment = "Zapf", &f, &t, &two
+		}
+		if format != "stl" {
+			sa.STLBoxing, sa.STLItalics, sa.TeletextDoubleHeight, sa.TeletextSpacesBefore = &t, &t, &t, &two
+		}
+		if format != "vtt" && format != "ttml" {
+			sa.WebVTTAlign, sa.WebVTTLine, sa.WebVTTBold = "end", "10%", true
+		}
+		if format == "ttml" && sa.TTMLTextAlign != nil && *sa.TTMLTextAlign != "end" {
+			// both alignments present and different (a TTML value edited after a WebVTT one was propagated)
+			sa.WebVTTAlign = "end"
+		}
+	}
+	for _, st := range s.Styles {
+		each(st.InlineStyle)
+	}
+	for _, rg := range s.Regions {
+		each(rg.InlineStyle)
+	}
+	for _, it := range s.Items {
+		each(it.InlineStyle)
+		for li := range it.Lines {
+			for ri := range it.Lines[li].Items {
+				each(it.Lines[li].Items[ri].InlineStyle)
+			}
+		}
+	}
 }
 
 // scribble edits everything a caller may edit in a list it got from a reader.
